@@ -159,7 +159,7 @@ def lib_objects(cfg="S", extra=(), cxx="g++"):
     """Compile every library .C file of REPO's working tree; returns list of object files."""
     flags = CFG[cfg] + list(extra) + inc_flags()
     srcs = lib_sources()
-    key = sha(tree_hash(), cfg, " ".join(extra), cxx, " ".join(srcs))
+    key = sha(tree_hash(), " ".join(CFG[cfg]), " ".join(extra), cxx, " ".join(srcs))
     odir = os.path.join(CACHE, "obj", key)
     stamp = os.path.join(odir, ".done")
     objs = [os.path.join(odir, os.path.basename(s)[:-2] + ".o") for s in srcs]
@@ -205,7 +205,7 @@ def build_harness(name, cfg="S", extra=(), link_lib=True, cxx="g++", srcdir=None
         with open(f, "rb") as fh:
             extra_blob += fh.read()
     with open(src, "rb") as fh:
-        key = sha(tree_hash(), cfg, " ".join(extra), cxx, fh.read(), hdrs, extra_blob, str(link_lib))
+        key = sha(tree_hash(), " ".join(CFG[cfg]), " ".join(extra), cxx, fh.read(), hdrs, extra_blob, str(link_lib))
     bdir = os.path.join(CACHE, "bin", key)
     binp = os.path.join(bdir, name)
     if os.path.exists(binp):
